@@ -7,9 +7,12 @@ Kernel specification `<kspec>` (one or more tokens); `<fb>` is `filterBoundary()
 `setFilterBoundary` was never called on the object (the class attribute of `Globals.initial`):
   list <weights>                      a Python list of weights
   dirac <fb>                          DiracKernel
-  uni <fb> <size> | tri <fb> <size> | epa <fb> <size>
-                                      Uniform / Triangular / Epanechnikov kernel, function and support
-                                      computed by the model
+  uni <fb> <size> | tri <fb> <size> | epa <fb> <size> | cub <fb> <size> | sph <fb> <size>
+                                      Uniform / Triangular / Epanechnikov / Cubic / Spheric kernel, function and
+                                      support computed by the model
+  gau <fb> <sigma> | expo <fb> <sigma>
+                                      (floats only) Gaussian / Exponential kernel computed by the model with
+                                      `Float.exp` / `Float.sqrt` (the C library's, as `math.exp` / `math.sqrt`)
   user <fb> <support> <values>        a user-defined kernel (`Kernel` + `setFunction`) whose function is
                                       `values[|x|]` at the integers `|x| < len(values)` and 0 elsewhere
   fn <fb> <support> <x:fx,x:fx,…>     any other Kernel object: its function as a table evaluated by
@@ -39,9 +42,13 @@ structure Sc (α : Type) where
   parse : String → Option α
   shw : α → String
   floorNat : α → Nat
+  /-- `math.exp` and `math.sqrt(2 * math.pi)` (floats only) -/
+  expF : Option (α → α)
+  sqrt2pi : Option α
 
-def scRat : Sc Rat := ⟨rat?, showRat, fun r => r.floor.toNat⟩
-def scFloat : Sc Float := ⟨fun s => if s == "nan" then none else float? s, showFloat, fun f => f.floor.toUInt64.toNat⟩
+def scRat : Sc Rat := ⟨rat?, showRat, fun r => r.floor.toNat, none, none⟩
+def scFloat : Sc Float := ⟨fun s => if s == "nan" then none else float? s, showFloat, fun f => f.floor.toUInt64.toNat,
+  some Float.exp, some (Float.sqrt (2 * 3.141592653589793))⟩
 
 def showErr : Err → String
   | .evenKernel => "err:even-kernel"
@@ -92,6 +99,25 @@ def kspec? (sc : Sc α) : List String → Option (KArg α)
     let b ← fb? fb
     let s ← sc.parse size
     pure (KArg.obj false b (epanechnikovF s) (epanechnikovSupport s) (sc.floorNat (epanechnikovSupport s)))
+  | ["cub", fb, size] => do
+    let b ← fb? fb
+    let s ← sc.parse size
+    pure (KArg.obj false b (cubicF s) (cubicSupport s) (sc.floorNat (cubicSupport s)))
+  | ["sph", fb, size] => do
+    let b ← fb? fb
+    let s ← sc.parse size
+    pure (KArg.obj false b (sphericF s) (sphericSupport s) (sc.floorNat (sphericSupport s)))
+  | ["gau", fb, size] => do
+    let b ← fb? fb
+    let s ← sc.parse size
+    let e ← sc.expF
+    let c ← sc.sqrt2pi
+    pure (KArg.obj false b (gaussianF e c s) (gaussianSupport s) (sc.floorNat (gaussianSupport s)))
+  | ["expo", fb, size] => do
+    let b ← fb? fb
+    let s ← sc.parse size
+    let e ← sc.expF
+    pure (KArg.obj false b (exponentialF e s) (exponentialSupport s) (sc.floorNat (exponentialSupport s)))
   | ["user", fb, support, vals] => do
     let b ← fb? fb
     let sup ← sc.parse support
